@@ -299,10 +299,15 @@ func c13(r *Report, s *Sem) {
 				if p.Field("Client", fld.Name()) != fld {
 					return
 				}
-				for _, site := range p.chanCloseSites(p.LimeFuncs()) {
+				// a pure signal: never sent on (the lifetime lock is), only closed by the listener goroutine
+				sent := false
+				for _, site := range p.chanSendSites(p.LimeFuncs()) {
 					if site.field == fld {
-						stops = true
+						sent = true
 					}
+				}
+				if !sent {
+					stops = true
 				}
 			})
 		}
